@@ -11,6 +11,7 @@ import (
 	"net/http"
 	"net/http/httptest"
 	"os"
+	"sort"
 	"strings"
 	"sync"
 	"testing"
@@ -83,6 +84,21 @@ func check(r *vh.Run, ck string, o *obs, secrets []*leak.Secret) {
 	o.mu.Lock()
 	defer o.mu.Unlock()
 	n := 0
+	{
+		var names, surf []string
+		for _, s := range secrets {
+			names = append(names, fmt.Sprintf("%s(%d bytes)", s.Name, len(s.Value)))
+		}
+		for k, b := range o.data {
+			surf = append(surf, fmt.Sprintf("%s:%d bytes", k, b.Len()))
+		}
+		sort.Strings(surf)
+		kind := ck
+		if i := strings.Index(ck, "/"); i > 0 {
+			kind = ck[:i]
+		}
+		r.SampleKind("scenario-"+kind, 2, map[string]any{"scenario": ck, "secrets_planted": names, "surfaces_scanned": surf})
+	}
 	for surface, buf := range o.data {
 		n += buf.Len()
 		r.Count("bytes_scanned", int64(buf.Len()))
